@@ -619,6 +619,61 @@ theorem function_reads_later_table :
     readExpr E.dflt w₂ d 0 0 "zeta" = ⟨[.call (.native "NORMAL") 1 1, .call (.native "UNIFORM") 1 1], 0, 0⟩ := by
   decide +kernel
 
+open McSession in
+/-- **a refused generation changes nothing but the generator state**: an expression evaluated / a function created
+/ a BIOGEME object constructed whose draw generation is refused (unknown type or wrong shape, at whatever
+variable) raises, and leaves `Database.theDraws` and every object exactly as they were — no half-built table -/
+theorem refused_generation_keeps_world {σ α : Type} (E : Env σ α) (w : World σ α) (op : Op)
+    (h : refusedIn E w op = true) :
+    (step E w op).1.theDraws = w.theDraws ∧ (step E w op).1.objs = w.objs ∧ (step E w op).2.isSome = true :=
+  step_refused E w op h
+
+open McSession in
+/-- **a prepared formula survives refused formulas**: the guard of `function_reads_own_series_partial` widened to
+histories of quiet operations *and refused generations* (`calmRun`) between the creation (`create_function`,
+`Expression.prepare`) and the evaluation with `prepare_ids=False` -/
+theorem function_survives_refusals_partial {σ α : Type} (E : Env σ α) (d : Decl) (R : Nat) (w : World σ α)
+    (hd : d.isEmpty = false) (h : (step E w (.createFunction d R)).2 = none)
+    (ops : List Op) (hc : calmRun E (step E w (.createFunction d R)).1 ops = true)
+    (name : String) (hname : name ∈ declNames d) (n r : Nat) (hn : n < E.N) (hr : r < R) :
+    ∃ src, dispatch E.native E.user (declType d name) = .ok src ∧
+      readExpr E.dflt (run E (step E w (.createFunction d R)).1 ops) d n r name
+        = (((E.gen src (stateBefore E.native E.user (declType d) E.gen E.N R (callNames d) w.rng
+            (drawId (declNames d) name)) E.N R).1).getD n []).getD r E.dflt := by
+  obtain ⟨src, h1, h2⟩ := expr_reads_own_series E d R w hd (by simpa [step] using h) name hname n r hn hr
+  refine ⟨src, h1, ?_⟩
+  unfold readExpr at h2 ⊢
+  rw [run_calm_theDraws E ops _ hc]
+  simpa [step] using h2
+
+open McSession in
+/-- a function is created, a formula with an unknown type and one whose generator returns the wrong shape are
+refused (each after a good variable was already served), numbers are consumed: the history is calm and the
+table is the one of the creation -/
+example :
+    let E := logEnv ["NORMAL", "UNIFORM"] ["G0", "GBAD"] 2
+    let w₁ := (step E ⟨[], none, []⟩ (.createFunction [("zeta", "NORMAL")] 2)).1
+    let ops := [Op.evalExpr [("a", "G0")] 2, .evalExpr [("b", "NOPE")] 2, .consume 3, .newBiogeme 5 [("c", "GBAD")] 2,
+      .callFunction]
+    calmRun E w₁ (ops.drop 1) = true ∧ calmRun E w₁ ops = false ∧
+      (run E w₁ (ops.drop 1)).theDraws = w₁.theDraws ∧ w₁.theDraws ≠ none := by
+  decide +kernel
+
+/-- **a user generator registered under a look-alike of a native name is served by the user generator**: the
+reserved-name test and the dispatch compare the declared type literally (case-sensitively), and a draw variable
+carries its type as declared — `Uniform`, `normal_anti` are user types next to `UNIFORM`, `NORMAL_ANTI` -/
+theorem lookalike_served_by_user (native user : List String) (ty : String) (h : ty ∉ native) (hu : ty ∈ user) :
+    setUserGenerators native user = .ok user → dispatch native user ty = .ok (.user ty) :=
+  fun _ => (generator_dispatch native user ty).2.1 h hu
+
+example : setUserGenerators ["UNIFORM", "NORMAL_ANTI"] ["Uniform", "normal_anti", "g1", "G1"]
+      = .ok ["Uniform", "normal_anti", "g1", "G1"] ∧
+    dispatch ["UNIFORM", "NORMAL_ANTI"] ["Uniform", "normal_anti", "g1", "G1"] "Uniform" = .ok (.user "Uniform") ∧
+    dispatch ["UNIFORM", "NORMAL_ANTI"] ["Uniform", "normal_anti", "g1", "G1"] "normal_anti" = .ok (.user "normal_anti") ∧
+    dispatch ["UNIFORM", "NORMAL_ANTI"] ["Uniform", "normal_anti", "g1", "G1"] "g1" = .ok (.user "g1") ∧
+    dispatch ["UNIFORM", "NORMAL_ANTI"] ["Uniform", "normal_anti", "g1", "G1"] "UNIFORM" = .ok (.native "UNIFORM") := by
+  decide
+
 /-! ### the five groups of the literal numbering -/
 
 /-- a free parameter is numbered by its position among the sorted free parameters -/
